@@ -16,7 +16,8 @@ RULE = ("all ordered pairs (p, v) of a value universe with p's text in several h
         "as the observed value (== and reflected ==), plus all ordered k-tuples of a statement menu (wrong / empty / correct "
         "snapshots, loops with <=, in, sub-snapshots with wrong and missing keys, nested containers, constructor calls) as "
         "one test body; run once with create+fix, then re-executed with inline-snapshot inactive; non-trivial = the file "
-        "changed for that test and its re-execution passed; distinct = (previous text, value) or body")
+        "changed for that test and its re-execution passed; distinct = (previous text, value) or body"
+        "; bodies also hold nested snapshots next to wrong elements and repr() observations, each body again after a first test whose comparison / code generation raises")
 ASSUMPTIONS = ["tests that contradict themselves and user-controlled parts (Is, f-strings, star-expressions) are excluded (C10)",
                "classes are defined in the module prologue; Opaque values get the HasRepr import up front"]
 BATCH = 40
